@@ -1,0 +1,15 @@
+//go:build verif
+
+package configuration
+
+import configapi "github.com/onosproject/onos-api/go/onos/config/v3"
+
+// WatchOptionsForVerif reports what a list of watch options asks for, so that a
+// store decorator living outside this package can honour them.
+func WatchOptionsForVerif(opts ...WatchOption) (id configapi.ConfigurationID, replay bool) {
+	var options watchOptions
+	for _, opt := range opts {
+		opt.apply(&options)
+	}
+	return options.configurationID, options.replay
+}
